@@ -14,7 +14,7 @@ COMMON = dict(harness='io.cpp', extra_tus=TUS, printf_model=True, keep=FMT, patc
 
 def UNWINDSET(l):
     return {r'backup_create_md5_file\w*\.[3-9]$': 18, 'decode_|_utf|get_word|is_ascii|decode_bom': l + 3,
-            'f_fread|f_read': l + 6,
+            'f_fread|f_read|f_fwrite': l + 6,
             'f_fwrite|load_mem_file|file_content_matches|bout_content|f__Z15uncrustify_file|backup_create_md5_file|MD5': l + 3,
             'vp_fmt_int': 4, 'do_source_file|make_folders': 18}
 
@@ -22,20 +22,59 @@ def UNWINDSET(l):
 def atomic_instances(tier):
     out = []
     # (L, crash, faults, no_backup, if_changed)
-    combos = [(1, 1, 1, 1, 0), (1, 1, 1, 0, 0), (1, 0, 2, 0, 0), (1, 1, 1, 0, 1)] if tier == 'quick' else \
+    combos = [(1, 1, 1, 1, 0), (1, 0, 1, 0, 0), (1, 1, 0, 0, 0), (1, 0, 1, 0, 1)] if tier == 'quick' else \
              [(l, c, f, nb, ic) for l in (1, 2) for (c, f) in ((1, 1), (0, 2), (1, 2)) for nb in (0, 1) for ic in (0, 1)] + [(3, 1, 1, 0, 0), (3, 1, 1, 1, 0)]
     for (l, crash, nf, nb, ic) in combos:
         out.append(dict(name='L%d-crash%d-faults%d-nobackup%d-ifchanged%d' % (l, crash, nf, nb, ic),
                         bound='original and formatted content: all byte strings of length %d; in-place, --no-backup=%d, --if-changed=%d; formatting may fail; '
                               '%s crash point x %d injected fault(s) over all libc file operations of the run; arbitrary stale temp/backup/md5 files' % (l, nb, ic, 'one' if crash else 'no', nf),
-                        unwind=40, unwindset=UNWINDSET(l),
+                        unwind=40, unwindset=UNWINDSET(l), timeout=(1500 if tier == 'quick' else 3400),
                         defs=dict(VP_FS_L=l, CRASH=crash, NFAULTS=nf, NOBACKUP=nb, IFCH=ic, VP_CAP_U8=l + 3, VP_CAP_INT=l + 2)))
+    return out
+
+
+def plain_instances(tier, lb=False):
+    out = []
+    for (lo, lf) in ([(1, 1), (2, 2), (2, 1)] if tier == 'quick' else [(1, 1), (2, 2), (2, 1), (1, 2), (3, 3), (0, 1), (1, 0)]):
+        l = max(lo, lf, 1)
+        out.append(dict(name='o%d-f%d' % (lo, lf), bound='all original contents of %d bytes x all formatted contents of %d bytes; all run modes of the obligation; arbitrary stale side files' % (lo, lf),
+                        unwind=40, unwindset=UNWINDSET(l), defs=dict(VP_FS_L=l, VPLO=lo, VPLF=lf, CRASH=0, NFAULTS=0, VP_CAP_U8=l + 3, VP_CAP_INT=l + 2)))
+    return out
+
+
+def funnel_instances(tier):
+    out = []
+    for base in plain_instances(tier)[:(1 if tier == 'quick' else 7)]:
+        for (mode, nb) in (((0, 1), (1, 1), (2, 1)) if tier == 'quick' else ((0, 1), (0, 0), (1, 1), (2, 1))):
+            i = dict(base)
+            i['name'] = base['name'] + '-' + ('inplace', 'o', 'stdout')[mode] + ('' if nb else '-backup')
+            i['defs'] = dict(base['defs'], FMODE=mode, NOBACKUP=nb)
+            i['timeout'] = 1500 if tier == 'quick' else 3400
+            out.append(i)
+    return out
+
+
+def nowrite_instances(tier):
+    out = []
+    for base in plain_instances(tier)[:(2 if tier == 'quick' else 7)]:
+        for (chk, inpl) in ((1, 0), (0, 1), (0, 0)):
+            i = dict(base)
+            i['name'] = base['name'] + ('-check' if chk else ('-ifchanged-inplace' if inpl else '-ifchanged-o'))
+            i['defs'] = dict(base['defs'], CHECKMODE=chk, INPLACE=inpl)
+            out.append(i)
     return out
 
 
 OBLIGATIONS = [
     dict(COMMON, id='IO-ATOMIC', entry='vp_io_atomic', instances=atomic_instances),
+    dict(COMMON, id='IO-FUNNEL', entry='vp_io_funnel', instances=funnel_instances),
+    dict(COMMON, id='CHK-CMP', entry='vp_chk_cmp', instances=plain_instances),
+    dict(COMMON, id='CHK-NOWRITE', entry='vp_chk_nowrite', instances=nowrite_instances),
+    dict(COMMON, id='BK-STEP', entry='vp_bk_step', instances=lambda tier: plain_instances(tier)[:1] if tier == 'quick' else [dict(i, timeout=3400) for i in plain_instances(tier)[:5]]),
 ]
 PROPERTIES = {
+    'C10': dict(obligations=['IO-FUNNEL'], not_decided="main()'s argument dispatch, stdin delivery, observer options, environment/locale independence."),
+    'C12': dict(obligations=['CHK-CMP', 'CHK-NOWRITE'], not_decided="main()'s exit status from check_fail_cnt and its rejection of --check with output options."),
+    'C14': dict(obligations=['BK-STEP'], not_decided='real MD5 (abstract injective digest assumed); crash points inside the step (IO-ATOMIC covers target/backup, not the md5 record).'),
     'C13': dict(obligations=['IO-ATOMIC'], not_decided='durability below libc (fsync ordering).'),
 }
